@@ -6,6 +6,7 @@ what gets imported.  Every property module (harness/p_<id>.py) provides a subcla
 forbidden-word grep -> case generation -> real dreye run -> cases_*.v emission ->
 kernel (vm_compute / interval) verdicts -> search for a failing input -> evidence.
 """
+import fnmatch
 import hashlib
 import json
 import math
@@ -374,7 +375,7 @@ def load_known():
 
 def match_known(pid, vclass, known):
     for k in known:
-        if k.get("property") == pid and k.get("status") == "open" and k.get("class") == vclass:
+        if k.get("property") == pid and k.get("status") == "open" and fnmatch.fnmatchcase(vclass, k.get("class", "")):
             return k
     return None
 
